@@ -90,7 +90,9 @@ class IntegratorTemplate(abc.ABC):
                 self.solver_dict["epsilon_last_last"], self.solver_dict["epsilon_last"] = epsilon_last, epsilon_current
             corr = (1 + D.ar_numpy.arctan((safety_factor * corr - 1)))
             timestep = corr * timestep
-            return timestep, bool(corr < 0.9**2)
+            # a trial step whose error estimate is not finite (overflow, the right-hand side left its domain) says nothing about its error: the
+            # formulas above turn it into the neutral correction 1, which a controller with a safety factor of 0.9 would accept
+            return timestep, bool(corr < 0.9**2) or not bool(D.ar_numpy.all(D.ar_numpy.isfinite(diff)))
 
     def get_error_estimate(self):
         return 0.0
